@@ -317,7 +317,7 @@ func c19ShapesRun(c *Ctx, idx int) {
 func init() {
 	Register(&Property{
 		ID:            "C19",
-		Rule:          "let-expressions over variables {$a,$b,$c} whose bound values are unique tagged literals or context-dependent selections (id of the current node), so the result says which binding and which context was captured: 77 canonical scope shapes (incl. wide lets of 6-10 bindings followed by narrow lets that look up unbound or outer names) (rebinding, null-valued inner bindings shadowing non-null outer ones at every kind of use site, shadowing, let $a = $a, sibling references, use after the body, bindings under projections/filters/pipes/multi-selects/sort_by, max_by, min_by, map, group_by expression references, nested lets rebinding per element, unbound references at every kind of site, short-circuited unbound references) plus seeded random nestings of depth 3-4 mixing all of those; compared with the reference model's lexical environments; non-trivial = model decides and the text uses a variable; joins stream (per-element lets above root-anchored sub-expressions, inner lets rebinding the same name); hash-hostile names (pairs colliding under twelve 32-bit string hashes, in one let, nested, shadowing, unbound); wide-let stream: one let binding and reading back 100 / 5000 / 70000 / 200000 distinct names; towers stream: lets nested 2..1000 deep (22 depths around 8, 16, 32, 64, 128, 256) rebinding eight names to level numbers, null, false, [], missing fields and outer variables, plain / inside multi-selects / inside projections, the body reads all eight; tower levels bind 1-4 names, a fifth of the binding expressions contain lets of their own (whose names must not leak and which must not disturb the bindings around them), a third of the towers bind only part of the pool and read names that only an inner let bound",
+		Rule:          "let-expressions over variables {$a,$b,$c} whose bound values are unique tagged literals or context-dependent selections (id of the current node), so the result says which binding and which context was captured: 77 canonical scope shapes (incl. wide lets of 6-10 bindings followed by narrow lets that look up unbound or outer names) (rebinding, null-valued inner bindings shadowing non-null outer ones at every kind of use site, shadowing, let $a = $a, sibling references, use after the body, bindings under projections/filters/pipes/multi-selects/sort_by, max_by, min_by, map, group_by expression references, nested lets rebinding per element, unbound references at every kind of site, short-circuited unbound references) plus seeded random nestings of depth 3-4 mixing all of those; compared with the reference model's lexical environments; non-trivial = model decides and the text uses a variable; joins stream (per-element lets above root-anchored sub-expressions, inner lets rebinding the same name); hash-hostile names (pairs colliding under twelve 32-bit string hashes, in one let, nested, shadowing, unbound); wide-let stream: one let binding and reading back 100 / 5000 / 70000 / 200000 distinct names; towers stream: lets nested 2..1000 deep (22 depths around 8, 16, 32, 64, 128, 256) rebinding eight names to level numbers, null, false, [], missing fields and outer variables, plain / inside multi-selects / inside projections, the body reads all eight; tower levels bind 1-4 names, a fifth of the binding expressions contain lets of their own (whose names must not leak and which must not disturb the bindings around them), a third of the towers bind only part of the pool and read names that only an inner let bound; wide-joins stream: join-shaped multi-selects with 8 / 63 / 70 / 130 columns, each with its own pair of variable names, through projections and map",
 		MinNontrivial: 1000,
 		Streams: []Stream{
 			{Name: "shapes", Setup: c19Setup, N: func(c *Ctx) int { return len(c19Shapes) }, Run: c19ShapesRun, Exhaustive: true},
